@@ -33,7 +33,7 @@ type c17Scenario struct {
 	Out        string            `json:"out"`        // as given on the command line ({S} = sandbox)
 	Modules    []c17Module       `json:"modules"`    // in some walk order, root first
 	Plugins    []c17Plugin       `json:"plugins"`
-	Probe      string            `json:"probe"` // "" main stream; "D33": known-finding probe
+	Clash      string            `json:"clash,omitempty"`      // which deliberate path clash the generator put in (histogram only)
 	OutputFile string            `json:"outputFile,omitempty"` // --output-file (only the main module is generated; not in the plan model)
 }
 
@@ -236,11 +236,24 @@ var pathShapes = []string{
 
 var dotdotShapes = []string{"../x.go", "a/../../x.go", "..", "a/..", "a..b/x.go", "x..", "..x", "/../x", "a/b/../../../x"}
 
+// paths that denote the output directory itself (D33, fixed: refused before anything is written)
+var outDirShapes = []string{"", ".", "./", "/", "//", "./.", ".//./"}
+
 func cleanRel(p string) string { return filepath.Join("/", p) }
 
+// clashes: a is the output directory itself, or a and b (cleaned, as written below the output
+// directory) are in a file-vs-directory clash.
+func dirPrefix(a, b string) bool { return strings.HasPrefix(b, a+"/") }
+
+func clashes(a, b string) bool {
+	ca, cb := cleanRel(a), cleanRel(b)
+	return ca != "/" && cb != "/" && (dirPrefix(ca, cb) || dirPrefix(cb, ca))
+}
+
 // usable: the cleaned target is not the output directory itself and not in a file-vs-directory
-// clash with another output (the D33 shapes are excluded from the main stream by construction;
-// equal cleaned paths are allowed: since the D42 fix they are a reported conflict).
+// clash with another output. Ordinary picks stay clear of such clashes so that most scenarios
+// get as far as writing; the clashes themselves (D33, fixed: refused before the first write)
+// are put in deliberately by the generator. Equal cleaned paths are allowed: a reported conflict.
 func usable(p string, taken map[string]bool) bool {
 	c := cleanRel(p)
 	if c == "/" {
@@ -336,17 +349,27 @@ func c17Generate(r *rng.R, n int) []c17Scenario {
 		}()
 		// pre-existing content of the output directory
 		s.Files[filepath.Join(outRel, "existing.txt")] = "old"
-		if r.Chance(1, 2) {
+		stale := r.Chance(1, 2)
+		if stale {
 			s.Files[filepath.Join(outRel, "main", "main.go")] = "// stale"
+		}
+		// what the output directory already holds must not be in the way of an ACCEPTED plan (that
+		// would be an OS-level failure of the write loop, outside C17): a deliberate clash with a
+		// position where a core file only MAY be must not touch the stale main/main.go.
+		blocked := func(p string) bool {
+			c := cleanRel(p)
+			return stale && (c == "/main" || c == "/main/main.go" || strings.HasPrefix(c, "/main/main.go/"))
 		}
 		// plugins and their paths
 		taken := map[string]bool{}
+		var corePos []string // every position a core file could take under any root
 		for _, m := range mods {
 			// conservatively reserve every position a core file could take under any root
 			b := strings.TrimSuffix(filepath.Base(m.Path), ".thrift")
 			for _, pre := range []string{"", "proj", "a", "a/b", "proj/a", "proj/a/b", "x/y", "x/z/w", "proj/x/y", "proj/x/z/w", "other", "p", "q", "r", "s", "t",
 				"proj/p", "proj/q", "proj/r", "proj/s", "proj/t", "y", "z/w", "b"} {
 				taken[cleanRel(filepath.Join(pre, b, b+".go"))] = true
+				corePos = append(corePos, filepath.Join(pre, b, b+".go"))
 			}
 		}
 		var raw []string
@@ -366,9 +389,55 @@ func c17Generate(r *rng.R, n int) []c17Scenario {
 				}
 				for f := r.Intn(4); f > 0; f-- {
 					var path string
+					deliberate := false // a path that is meant to clash: exempt from the usable() filter
 					switch {
 					case r.Chance(1, 9):
 						path = dotdotShapes[r.Intn(len(dotdotShapes))]
+					case r.Chance(1, 16):
+						// the output directory itself
+						path = outDirShapes[r.Intn(len(outDirShapes))]
+						deliberate = true
+						s.Clash = "output directory itself"
+					case r.Chance(1, 9) && len(raw) > 0:
+						// file-vs-directory with a path of another plugin (or of this one): a file below
+						// it, or one of its directories as a file
+						other := raw[r.Intn(len(raw))]
+						if strings.Contains(other, "..") || cleanRel(other) == "/" {
+							continue
+						}
+						if r.Chance(1, 2) {
+							path = other + "/" + pathShapes[r.Intn(3)]
+						} else {
+							d := filepath.Dir(cleanRel(other))
+							if d == "/" {
+								continue // a top-level file has no directory to clash with
+							}
+							if r.Chance(1, 2) && filepath.Dir(d) != "/" {
+								d = filepath.Dir(d)
+							}
+							path = []string{"", "./", "/"}[r.Intn(3)] + d[1:]
+						}
+						deliberate = true
+						s.Clash = "file-vs-directory between plugin paths"
+					case r.Chance(1, 9):
+						// file-vs-directory with a core file, if there is one at that position: a file
+						// below it, or one of its directories as a file
+						pos := corePos[r.Intn(len(corePos))]
+						if r.Chance(1, 2) {
+							path = pos + "/x.go"
+						} else {
+							path = filepath.Dir(pos)
+							if r.Chance(1, 3) && filepath.Dir(path) != "." {
+								path = filepath.Dir(path)
+							}
+						}
+						if blocked(path) {
+							continue
+						}
+						deliberate = true
+						if s.Clash == "" {
+							s.Clash = "file-vs-directory with a possible core path"
+						}
 					case r.Chance(1, 10) && len(raw) > 0:
 						path = raw[r.Intn(len(raw))] // equal to another (or the same) plugin's path
 					case r.Chance(1, 12):
@@ -392,7 +461,7 @@ func c17Generate(r *rng.R, n int) []c17Scenario {
 						}
 					}
 					isDotDot := strings.Contains(path, "..")
-					if dup || (!rawEqual && !isDotDot && path != "main/main.go" && !usable(path, taken)) {
+					if dup || (!deliberate && !rawEqual && !isDotDot && path != "main/main.go" && !usable(path, taken)) {
 						continue
 					}
 					p.Files = append(p.Files, kv2{path, fmt.Sprintf("%s#%d", p.key(), len(p.Files))})
@@ -415,8 +484,6 @@ func c17Generate(r *rng.R, n int) []c17Scenario {
 
 // --output-file values: main.go only checks the extension; the file must still land below the output directory.
 var outputFileShapes = []string{"all.go", "./x.go", "sub/dir/x.go", "../x.go", "../../x.go", "../../../../x.go", "a/../../../x.go", "a/b/../../../../x.go"}
-
-var d33Once sync.Once
 
 func c17Check(c *checker, scs []c17Scenario, how string) {
 	type rr struct {
@@ -459,6 +526,9 @@ func c17Check(c *checker, scs []c17Scenario, how string) {
 				c.rep.Hist("plugin-path-shape", shapeOf(f.K))
 			}
 		}
+		if s.Clash != "" {
+			c.rep.Hist("deliberate-clash", s.Clash)
+		}
 		c.rep.Case(input, len(s.Plugins) > 0 || len(s.Modules) > 1 || s.ThriftRoot != "")
 		if i < 2 {
 			c.rep.Sample(s.Label + ": " + ops[i] + " => " + impl)
@@ -468,30 +538,6 @@ func c17Check(c *checker, scs []c17Scenario, how string) {
 			outAbs = filepath.Join(sandbox, s.Cwd, outAbs)
 		}
 		outRel, _ := filepath.Rel(sandbox, filepath.Clean(outAbs))
-
-		switch s.Probe {
-		case "D33":
-			if res.exit != 0 && len(res.diff) > 0 && strings.HasPrefix(model, "ok ") {
-				confined := true
-				for _, d := range res.diff {
-					if !within(outRel, d[1:]) {
-						confined = false
-					}
-				}
-				if confined {
-					d33Once.Do(func() {
-						c.rep.Known = append(c.rep.Known, report.Known{ID: "D33", What: "a plugin path that is a directory (\".\", \"\") or collides file-vs-directory with another output fails in the write loop after other files were written: exit 1 with a partially written output directory (" + s.Label + ")"})
-					})
-					continue
-				}
-			}
-			if res.exit != 0 && len(res.diff) == 0 {
-				c.rep.Notes = appendOnce(c.rep.Notes, "D33 probe fails without writing anything: the finding appears repaired")
-				continue
-			}
-			c.rep.Disagree(report.Disagreement{Kind: "C17 D33 probe: unexpected behaviour", Input: input, Impl: impl, Model: model, Oracle: strings.Join(res.diff, " ")})
-			continue
-		}
 
 		if s.OutputFile != "" {
 			c.rep.Hist("output-file-shape", s.OutputFile)
@@ -532,6 +578,49 @@ func c17Check(c *checker, scs []c17Scenario, how string) {
 		if conflict && res.exit == 0 {
 			c.oracle("C17 conflict not reported", input, impl, "two plugin paths name the same file")
 		}
+		// a path that is the output directory itself, or two paths in a file-vs-directory clash,
+		// cannot all be written: must be an error (and, as every error, without any write — the
+		// oracle above; that is what finding D33 violated)
+		var pluginPaths []string
+		for _, p := range s.Plugins {
+			if p.Fail {
+				continue
+			}
+			for _, f := range p.Files {
+				pluginPaths = append(pluginPaths, f.K)
+			}
+		}
+		for a, pa := range pluginPaths {
+			if cleanRel(pa) == "/" {
+				c.rep.Hist("path-clash", "output directory itself")
+				if res.exit == 0 {
+					c.oracle("C17 path that is the output directory not reported", input, impl, strconv.Quote(pa))
+				}
+			}
+			for _, pb := range pluginPaths[a+1:] {
+				if clashes(pa, pb) {
+					c.rep.Hist("path-clash", "file-vs-directory between plugin paths")
+					if res.exit == 0 {
+						c.oracle("C17 file-vs-directory clash not reported", input, impl, strconv.Quote(pa)+" vs "+strconv.Quote(pb))
+					}
+				}
+			}
+		}
+		if res.exit == 0 {
+			// … and between everything that was written (core files included): physically impossible,
+			// so a failure here means the snapshot or the sandbox is broken
+			var ws []string
+			for _, w := range res.written {
+				ws = append(ws, strings.SplitN(w, "=", 2)[0])
+			}
+			for a := range ws {
+				for _, wb := range ws[a+1:] {
+					if dirPrefix(ws[a], wb) || dirPrefix(wb, ws[a]) {
+						c.oracle("C17 written paths clash file-vs-directory", input, impl, ws[a]+" "+wb)
+					}
+				}
+			}
+		}
 		anyFail := false
 		for k, m := range s.Modules {
 			anyFail = anyFail || (m.Fails && (k == 0 || s.OutputFile == ""))
@@ -558,6 +647,8 @@ func shapeOf(p string) string {
 	switch {
 	case strings.Contains(p, ".."):
 		return "contains .."
+	case cleanRel(p) == "/":
+		return "output directory itself"
 	case strings.HasPrefix(p, "/"):
 		return "absolute"
 	case strings.Contains(p, "//"):
@@ -570,23 +661,33 @@ func shapeOf(p string) string {
 	return "relative"
 }
 
-func c17Probes() []c17Scenario {
-	base := func(label, probe string, plugins ...c17Plugin) c17Scenario {
+// c17Regressions: the witnesses of the repaired findings D42, D34 and D33, as ordinary scenarios
+// (each must fail with the sandbox untouched; anything else is a violation).
+func c17Regressions() []c17Scenario {
+	base := func(label string, plugins ...c17Plugin) c17Scenario {
 		files, mods := program([]string{"proj"}, []string{"main"}, nil, true)
 		files["sibling/keep.txt"] = "keep"
-		return c17Scenario{Label: label, Probe: probe, Cwd: "work", Files: files, Main: mods[0].Path, Out: "{S}/out", Modules: mods, Plugins: plugins}
+		files["out/existing.txt"] = "old"
+		return c17Scenario{Label: label, Cwd: "work", Files: files, Main: mods[0].Path, Out: "{S}/out", Modules: mods, Plugins: plugins}
 	}
 	return []c17Scenario{
-		base("regression D42: plugin ./main/main.go vs core main/main.go", "", c17Plugin{Name: "alpha", Files: []kv2{{"./main/main.go", "PLUGIN"}}}),
-		base("regression D42: plugins x.go and ./x.go", "", c17Plugin{Name: "alpha", Files: []kv2{{"x.go", "AAA"}}}, c17Plugin{Name: "beta", Files: []kv2{{"./x.go", "BBB"}}}),
-		base("regression D42: plugins a/b.go and /a//b.go", "", c17Plugin{Name: "alpha", Files: []kv2{{"a/b.go", "AAA"}}}, c17Plugin{Name: "beta", Files: []kv2{{"/a//b.go", "BBB"}}}),
-		base("regression D42: one plugin returning x.go and ./x.go", "", c17Plugin{Name: "alpha", Files: []kv2{{"x.go", "AAA"}, {"./x.go", "BBB"}}}),
-		{Label: "regression D34: thrift file named ...thrift directly in the inferred root", Probe: "", Cwd: "work", Main: "proj/...thrift", Out: "{S}/o/out",
+		base("regression D42: plugin ./main/main.go vs core main/main.go", c17Plugin{Name: "alpha", Files: []kv2{{"./main/main.go", "PLUGIN"}}}),
+		base("regression D42: plugins x.go and ./x.go", c17Plugin{Name: "alpha", Files: []kv2{{"x.go", "AAA"}}}, c17Plugin{Name: "beta", Files: []kv2{{"./x.go", "BBB"}}}),
+		base("regression D42: plugins a/b.go and /a//b.go", c17Plugin{Name: "alpha", Files: []kv2{{"a/b.go", "AAA"}}}, c17Plugin{Name: "beta", Files: []kv2{{"/a//b.go", "BBB"}}}),
+		base("regression D42: one plugin returning x.go and ./x.go", c17Plugin{Name: "alpha", Files: []kv2{{"x.go", "AAA"}, {"./x.go", "BBB"}}}),
+		{Label: "regression D34: thrift file named ...thrift directly in the inferred root", Cwd: "work", Main: "proj/...thrift", Out: "{S}/o/out",
 			Files:   map[string]string{"proj/...thrift": "struct S { 1: optional string a }\n", "sibling/keep.txt": "keep"},
 			Modules: []c17Module{{Path: "proj/...thrift"}}},
-		base("plugin path \".\"", "D33", c17Plugin{Name: "alpha", Files: []kv2{{".", "X"}}}),
-		base("plugin path \"\"", "D33", c17Plugin{Name: "alpha", Files: []kv2{{"", "X"}}}),
-		base("plugin file \"main\" vs core directory main/", "D33", c17Plugin{Name: "alpha", Files: []kv2{{"main", "X"}}}),
+		base("regression D33: plugin path \".\"", c17Plugin{Name: "alpha", Files: []kv2{{".", "X"}}}),
+		base("regression D33: plugin path \"\"", c17Plugin{Name: "alpha", Files: []kv2{{"", "X"}}}),
+		base("regression D33: plugin path \"./\" beside an ordinary file", c17Plugin{Name: "alpha", Files: []kv2{{"ok.go", "O"}, {"./", "X"}}}),
+		base("regression D33: plugin path \"/\" from the second plugin", c17Plugin{Name: "alpha", Files: []kv2{{"ok.go", "O"}}}, c17Plugin{Name: "beta", Files: []kv2{{"/", "X"}}}),
+		base("regression D33: plugin file \"main\" vs core directory main/", c17Plugin{Name: "alpha", Files: []kv2{{"main", "X"}}}),
+		base("regression D33: plugin file below the core file main/main.go", c17Plugin{Name: "alpha", Files: []kv2{{"main/main.go/x.go", "X"}}}),
+		base("regression D33: plugins a and a/b.go", c17Plugin{Name: "alpha", Files: []kv2{{"a", "AAA"}}}, c17Plugin{Name: "beta", Files: []kv2{{"a/b.go", "BBB"}}}),
+		base("regression D33: plugins a/b/c.go and ./a", c17Plugin{Name: "alpha", Files: []kv2{{"a/b/c.go", "AAA"}, {"z.go", "Z"}}}, c17Plugin{Name: "beta", Files: []kv2{{"./a", "BBB"}}}),
+		base("regression D33: one plugin returning q/r.go and q", c17Plugin{Name: "alpha", Files: []kv2{{"q/r.go", "AAA"}, {"q", "BBB"}}}),
+		base("near clash: main-x, mai, main/main.gox beside core main/main.go (accepted)", c17Plugin{Name: "alpha", Files: []kv2{{"main-x", "A"}, {"mai", "B"}, {"main/main.gox", "C"}}}),
 	}
 }
 
@@ -673,9 +774,9 @@ func runC17(c *checker, r *rng.R) {
 		n = 9000
 	}
 	c17Check(c, c17Generate(r, n), "generated")
-	c17Check(c, c17Probes(), "finding-probes")
+	c17Check(c, c17Regressions(), "regressions")
 	c17Paths(c, r)
 	c.flush()
-	c.rep.Rule = "scenarios = the real thriftrw binary in a sandbox tree (sources, output directory with pre-existing files, a sibling directory) hashed before/after: 1..5 modules in 5 directory layouts with the k-th module failing to generate x {no --thrift-root, proj, grandparent, main's own dir, uncleaned, relative} x 5 out-dir spellings x 0..3 plugins returning paths from {relative, absolute, .., ., repeated separators, trailing slash, equal to a core path, equal to another plugin's path} or failing; compared with the Lean plan (exit status + exact set of files written with contents); + 12k random POSIX path pairs through Clean/Join/Rel/Dir/Base/IsAbs/generated-file path vs path/filepath. non-trivial = has plugins, several modules or an explicit root; distinct by scenario"
-	c.rep.Notes = append(c.rep.Notes, "main-stream plugin paths never clean to the output directory itself nor clash file-vs-directory with another output: those shapes are finding D33 and have their own probe; D42 and D34 are fixed, their witnesses run as ordinary scenarios")
+	c.rep.Rule = "scenarios = the real thriftrw binary in a sandbox tree (sources, output directory with pre-existing files, a sibling directory) hashed before/after: 1..5 modules in 5 directory layouts with the k-th module failing to generate x {no --thrift-root, proj, grandparent, main's own dir, uncleaned, relative} x 5 out-dir spellings x 0..3 plugins returning paths from {relative, absolute, .., ., repeated separators, trailing slash, equal to a core path, equal to another plugin's path, the output directory itself (\"\", \".\", \"./\", \"/\"), a file below / a directory of another plugin's path, a file below / a directory of a possible core file} or failing; compared with the Lean plan (exit status + exact set of files written with contents); + 12k random POSIX path pairs through Clean/Join/Rel/Dir/Base/IsAbs/generated-file path vs path/filepath. non-trivial = has plugins, several modules or an explicit root; distinct by scenario"
+	c.rep.Notes = append(c.rep.Notes, "D42, D34 and D33 are fixed: their witnesses run as ordinary scenarios (a failure must leave the sandbox untouched), and the D33 shapes — a path that is the output directory itself, file-vs-directory pairs between two plugins and between a plugin and a core file — are part of the random stream; what the output directory holds beforehand (existing.txt, sometimes a stale main/main.go) is never in the way of an accepted plan: a write refused by the OS half-way is outside C17")
 }
